@@ -26,8 +26,13 @@ def run_one(args):
             s = s.replace(old, new, 1)
             open(fp, "w").write(s)
         env = dict(os.environ, VERIF_REPO=repo, VERIF_OUT_DIR=os.path.join(d, "out"), PYTHONHASHSEED="0")
-        p = subprocess.run([sys.executable, os.path.join(HERE, "run.py"), pid, "--tier", tier],
-                           env=env, stdout=subprocess.PIPE, stderr=subprocess.STDOUT, text=True)
+        try:
+            p = subprocess.run([sys.executable, os.path.join(HERE, "run.py"), pid, "--tier", tier],
+                               env=env, stdout=subprocess.PIPE, stderr=subprocess.STDOUT, text=True,
+                               timeout=900, start_new_session=True)
+        except subprocess.TimeoutExpired:
+            subprocess.run(["pkill", "-9", "-f", "VERIF_REPO=%s" % repo])
+            return (pid, name, "TIMEOUT", "")
         sigs = [l.strip() for l in p.stdout.splitlines() if l.strip().startswith("signature:")]
         verdict = {0: "MISSED", 1: "caught", 2: "HARNESS-ERROR"}.get(p.returncode, "rc=%d" % p.returncode)
         tail = "" if p.returncode == 1 else p.stdout[-600:]
